@@ -363,6 +363,94 @@ def run_parallel(binary, lines, env_extra=None, chunks=None):
     return out
 
 
+
+# ----------------------------------------------------------------------------------------------
+# how much of the anchored C++ the correspondence inputs reach (gcov): measured, reported in the evidence
+
+COV_FLAGS = ['-std=c++17', '-O0', '-g', '--coverage', '-fprofile-update=atomic', '-DNDEBUG', '-D' + GUARD, '-pthread']
+
+def anchor_files(prop):
+    for l in open(os.path.join(VERIF, 'properties.jsonl')):
+        d = json.loads(l)
+        if d['id'] == prop:
+            return list(d.get('anchors', {}).get('files', []))
+    return []
+
+def _ranges(nums, limit=60):
+    nums = sorted(nums); out = []; i = 0
+    while i < len(nums):
+        j = i
+        while j + 1 < len(nums) and nums[j + 1] == nums[j] + 1: j += 1
+        out.append(str(nums[i]) if i == j else '%d-%d' % (nums[i], nums[j])); i = j + 1
+    return ','.join(out[:limit]) + (',...(%d more ranges)' % (len(out) - limit) if len(out) > limit else '')
+
+def impl_coverage(res):
+    """Re-run every line this check fed to an implementation driver through a gcov-instrumented build of the working tree and
+    report, for each anchor file of the property, which executable lines / functions the correspondence inputs reached.
+    A measurement of the tie's reach, never an alarm."""
+    from vlib import drivers
+    import tempfile, gzip
+    reg = {name: srcs for (name, srcs, kw) in drivers.ALL}
+    by_drv = {}
+    for (binp, lines) in res.ran:
+        name = os.path.basename(binp).rsplit('-', 1)[0]
+        if name in reg and os.path.basename(os.path.dirname(binp)).startswith('impl-'):
+            by_drv.setdefault(name, []).extend(lines)
+    if not by_drv:
+        return None
+    t0 = time.time()
+    pd = tempfile.mkdtemp(prefix='gcda-', dir=CACHE)
+    try:
+        covdir = None
+        for name, lines in by_drv.items():
+            drv, err = build_driver(name, reg[name], implflags=COV_FLAGS, tag='cov')
+            if err:
+                return {'error': 'coverage build failed: ' + err[-300:]}
+            covdir = os.path.dirname(drv)
+            run_parallel(drv, lines, env_extra={'GCOV_PREFIX': pd, 'GCOV_PREFIX_STRIP': '0'})
+        # the .gcda files are under pd/<absolute object dir>; gcov needs the .gcno next to them
+        gdir = os.path.join(pd, covdir.lstrip('/'))
+        if not os.path.isdir(gdir):
+            return {'error': 'no coverage data was written'}
+        gcdas = [f for f in os.listdir(gdir) if f.endswith('.gcda')]
+        for f in gcdas:
+            src = os.path.join(covdir, f[:-5] + '.gcno')
+            if os.path.exists(src) and not os.path.exists(os.path.join(gdir, f[:-5] + '.gcno')):
+                os.symlink(src, os.path.join(gdir, f[:-5] + '.gcno'))
+        lines_hit = {}; funcs = {}
+        def one(f):
+            p = subprocess.run(['gcov', '--json-format', '--stdout', '-o', gdir, os.path.join(gdir, f)], capture_output=True, cwd=gdir)
+            try: return json.loads(p.stdout.decode('utf-8', 'replace'))
+            except Exception: return None
+        with ThreadPoolExecutor(NPROC) as ex:
+            docs = list(ex.map(one, gcdas))
+        for doc in docs:
+            if not doc: continue
+            for fe in doc.get('files', []):
+                path = os.path.normpath(os.path.join(REPO, fe['file'])) if not fe['file'].startswith('/') else os.path.normpath(fe['file'])
+                if not path.startswith(REPO + '/'): continue
+                rel = path[len(REPO) + 1:]
+                lh = lines_hit.setdefault(rel, {})
+                for ln in fe.get('lines', []):
+                    lh[ln['line_number']] = lh.get(ln['line_number'], 0) + ln['count']
+                fh = funcs.setdefault(rel, {})
+                for fn in fe.get('functions', []):
+                    key = (fn.get('demangled_name') or fn['name'], fn.get('start_line'))
+                    fh[key] = fh.get(key, 0) + fn.get('execution_count', 0)
+        out = {}
+        for rel in anchor_files(res.prop):
+            lh = lines_hit.get(rel)
+            if lh is None:
+                out[rel] = {'note': 'not compiled into any driver this check ran'}; continue
+            missed = [n for n, c in lh.items() if c == 0]
+            never = sorted(k[0] for k, c in funcs.get(rel, {}).items() if c == 0)
+            out[rel] = {'executable_lines': len(lh), 'reached': len(lh) - len(missed), 'percent': round(100.0 * (len(lh) - len(missed)) / max(1, len(lh)), 1),
+                        'lines_not_reached': _ranges(missed), 'functions_never_entered': [x[:140] for x in never[:60]]}
+        return {'files': out, 'lines_run': sum(len(v) for v in by_drv.values()), 'drivers': sorted(by_drv), 'wall_s': round(time.time() - t0, 1),
+                'note': 'gcov (-O0, --coverage) on the inputs of this run; whole-file figures: an anchor file also holds code that belongs to other properties'}
+    finally:
+        shutil.rmtree(pd, ignore_errors=True)
+
 # ----------------------------------------------------------------------------------------------
 # known findings
 
@@ -390,6 +478,7 @@ class Result:
         self.evals = 0
         self.nontrivial = set()
         self.unspecified = 0
+        self.ran = []           # (implementation driver binary, lines) of every K-diff of this run, for impl_coverage
         try:
             for f in os.listdir(REPLAY):
                 if f.startswith(prop_id + '-'):
@@ -469,6 +558,12 @@ def finish(res, lean, rule, level='proof', checker_cmd=None, extra_cov=None):
         cov['leanchecker'] = lean['leanchecker']
     if extra_cov:
         cov.update(extra_cov)
+    if (res.tier == 'thorough' or os.environ.get('VERIF_COVERAGE') == '1') and os.environ.get('VERIF_COVERAGE') != '0':
+        try:
+            ic = impl_coverage(res)
+        except Exception as e:
+            ic = {'error': '%s: %s' % (type(e).__name__, e)}
+        if ic: cov['impl_coverage'] = ic
     ev = {
         'property_id': prop, 'tier': res.tier, 'seed': seed(), 'level': level, 'coverage': cov,
         'assumptions': res.assumptions, 'wall_s': round(time.time() - res.t0, 2), 'violations': len(violations),
@@ -487,6 +582,7 @@ def kdiff(res, lean, impl_bin, lines, oracle=None, classify=None, unspecified=No
     """Run lines through impl and model drivers, compare, apply the direct oracle to every impl output.
     oracle(line, impl_out) -> None | str(detail) ; classify(line, impl_out) -> hashable non-triviality class or None."""
     impl_out = run_parallel(impl_bin, lines)
+    if not tag.endswith('search:'): res.ran.append((impl_bin, list(lines)))
     model_out = None
     if lean and lean.get('driver'):
         model_out = run_parallel(lean['driver'], lines)
